@@ -306,6 +306,12 @@ def _park_case(case, ctx):
         if "parked" not in m:
             ctx.classify("park-point-beyond-call")   # A finished before boundary k: nothing to test here
             return
+        if not mp_lists_left(store):
+            # A is parked at a point where it holds no identifier (outside every critical section):
+            # B completing now would be legitimate, so this park point says nothing about exclusion
+            ctx.classify("park-point-outside-critical-section")
+            os.write(a_go_w, b"g")
+            return
         pb = os.fork()
         if pb == 0:
             os.close(b_out_r)
